@@ -2,7 +2,7 @@
    of Conc_Model, plus the thread-local control that is not a critical section.  No proofs here.
 
    Shared state guarded by mutex_:  queue_ (task identities, oldest first), running_.
-   Conditions: notEmpty_ (0), notFull_ (1).  Parameters: nw = threads_.size() after start(nw)
+   Conditions: notEmpty_ (0), notFull_ (1).  Params: nw = threads_.size() after start(nw)
    (0 = no pool threads: run() executes inline), maxq = maxQueueSize_ (0 = unbounded).
 
    Critical sections (one [pool_body] each, evaluated at the top of the wait loop, see Conc_Model):
